@@ -687,8 +687,25 @@ impl PersistenceState {
             );
         }
         let mut manifest = Manifest::load(&manifest_path)?;
-        manifest.wal_segments.push(new_wal_name);
-        manifest.save(&manifest_path)?;
+        manifest.wal_segments.push(new_wal_name.clone());
+        if let Err(save_err) = manifest.save(&manifest_path) {
+            // Manifest::save can fail AFTER its rename (the parent-directory fsync). The MANIFEST on
+            // disk then already lists the new segment as the newest one, and snapshot compaction
+            // treats the newest listed segment as the active one: staying on the old segment would
+            // let the next compaction unlink the file this writer still appends acknowledged
+            // entries to. If the new segment is listed, the rotation has happened: follow it.
+            let listed = Manifest::load(&manifest_path)
+                .map(|on_disk| on_disk.wal_segments.last() == Some(&new_wal_name))
+                .unwrap_or(false);
+            if !listed {
+                return Err(save_err);
+            }
+            warn!(
+                error = %save_err,
+                new = %new_wal_path.display(),
+                "MANIFEST save reported an error after publishing the new WAL segment; switching to it"
+            );
+        }
 
         *wal_guard = new_writer;
         info!(
